@@ -111,6 +111,17 @@ structure IrcConn where
   writeDelay : Int := 0
   deriving DecidableEq, Repr
 
+/-- state.go `strictTransport` (phase 4; `time.Time` = integer nanoseconds).  The hand-written timed model is
+    `Model/StsTime.lean`'s `TSts`; `Proofs/TransSts.lean` relates the two. -/
+structure StrictTransport where
+  beginUpgrade : Bool := false
+  upgradePort : Int := 0
+  persistenceDuration : Int := 0
+  persistenceReceived : Int := 0
+  preload : Bool := false
+  lastFailed : Int := 0
+  deriving DecidableEq, Repr
+
 /-- Go run-time failures.  `nilMap`: assignment to an entry of a nil map.  `diverge`: a fuel-bounded loop ran out of fuel.  `unsupported`: emitted by
     the translator (fail-closed) for a target function that is missing or outside the Go subset, and by
     run-time models for arguments outside their modelled domain. -/
@@ -293,6 +304,23 @@ def setA {α : Type} (s : List α) (i : Int) (v : α) : Except Fault (List α) :
 def makeA {α : Type} (zero : α) (n : Int) : Except Fault (List α) :=
   if 0 ≤ n then .ok (List.replicate n.toNat zero) else .error .sliceBounds
 
+/-- Go `make([]T, n, c)`: `n` zero values; the capacity is not modelled, its run-time check `0 ≤ n ≤ c` is. -/
+def makeCapA {α : Type} (zero : α) (n c : Int) : Except Fault (List α) :=
+  if 0 ≤ n ∧ n ≤ c then .ok (List.replicate n.toNat zero) else .error .sliceBounds
+
+/-- Go `p[lo:hi]` on a slice PARAMETER whose capacity is modelled (the translated function calls `cap(p)`): `spare` are
+    the elements of the backing array between `len(p)` and `cap(p)` (arbitrary contents — the theorems quantify over
+    them), so a reslice may extend up to `len p + len spare`. -/
+def sliceCapA {α : Type} (s spare : List α) (lo hi : Int) : Except Fault (List α) :=
+  if 0 ≤ lo ∧ lo ≤ hi ∧ hi ≤ (s.length + spare.length : Nat) then .ok (((s ++ spare).drop lo.toNat).take (hi - lo).toNat)
+  else .error .sliceBounds
+
+/-- `x == nil` for a slice.  Nil-ness of slices is NOT modelled (nil and the empty slice are both `[]`): the empty slice
+    is taken to be nil.  The translator admits the test only as `if x != nil { … }` without `else` (TRUSTED: the guarded
+    block has the same value-level effect on an empty non-nil slice as being skipped — `make([]T, 0)` + `copy` of nothing
+    in `(*Event).Copy`). -/
+def sliceIsNil {α : Type} (s : List α) : Bool := s.isEmpty
+
 /-- Go `copy(dst, src)` (the statement form; the count is discarded): the first `min(len dst, len src)` elements of
     `dst` are overwritten.  `dst` and `src` do not overlap (values). -/
 def copyA {α : Type} (dst src : List α) : List α :=
@@ -439,6 +467,23 @@ def mapSet (t : Option Tags) (k v : Bytes) : Except Fault (Option Tags) :=
   | some m => .ok (some (AMap.set m k v))
 
 @[simp] theorem mapSet_some (m : Tags) (k v : Bytes) : mapSet (some m) k v = .ok (some (AMap.set m k v)) := rfl
+
+/-- Go `delete(m, k)`: a no-op on a nil map and on a missing key. -/
+def mapDelete (t : Option Tags) (k : Bytes) : Option Tags :=
+  match t with
+  | none => none
+  | some m => some (AMap.erase m k)
+
+/-- `time.Since(t)` read when the clock shows `now`: `now.Sub(t)`, which SATURATES at the `time.Duration` limits
+    (int64 nanoseconds).  TRUSTED table entry (one integer clock, as for `time.Now()`/`Sub`). -/
+def timeSince (now t : Int) : Int :=
+  let d := now - t
+  if d > 9223372036854775807 then 9223372036854775807 else if d < -9223372036854775808 then -9223372036854775808 else d
+
+/-- `int(d.Seconds())` for a `time.Duration` d: whole seconds, truncated towards zero.  TRUSTED: `Seconds()` is a float64
+    (`float64(d/1e9) + float64(d%1e9)/1e9`); the model is the exact quotient, which agrees with Go whenever the whole-second
+    count is below 2^23 (see Model/StsTime.lean for the rounding note). -/
+def durWholeSeconds (d : Int) : Int := Int.tdiv d 1000000000
 
 /-- Go `m[k]` on a `map[string]map[string]string` (nil outer map / missing key read as the nil inner map). -/
 def mapGet2 (t : Option (AMap (Option Tags))) (k : Bytes) : Option Tags :=
